@@ -342,6 +342,52 @@ def check_source_call(ctx):
 def check_flatten(ctx):
     fn = ctx.tree.func("lena.core.meta", "flatten")
     loops = [l for l in A.walk_local(fn) if isinstance(l, ast.For)]
+    wl = [l for l in A.walk_local(fn) if isinstance(l, ast.While)]
+    if not loops and len(wl) == 1:
+        # a worklist instead of recursion: what is pushed is taken out again by pop() -- last in, first out -- so every
+        # group of elements must be pushed in reverse to come out in document order
+        loop = wl[0]
+        pops = [c for c in A.walk_body(loop.body) if isinstance(c, ast.Call) and isinstance(c.func, ast.Attribute) and c.func.attr in ("pop", "popleft")
+                and isinstance(c.func.value, ast.Name)]
+        if ctx.require(len(pops) == 1, "C01-d", fn, "flatten: worklist loop without a single pop"):
+            stack = pops[0].func.value.id
+            lifo = pops[0].func.attr == "pop" and not pops[0].args
+            fifo = pops[0].func.attr == "popleft" or (pops[0].func.attr == "pop" and pops[0].args and A.int_const(pops[0].args[0]) == 0)
+            if ctx.require(lifo or fifo, "C01-d", pops[0], "flatten: unrecognised pop `%s`" % A.src(pops[0])):
+                def is_reversed(e):
+                    if isinstance(e, ast.Call) and A.call_name(e) == "reversed":
+                        return True
+                    if isinstance(e, ast.Subscript) and isinstance(e.slice, ast.Slice) and e.slice.lower is None and e.slice.upper is None \
+                            and A.int_const(e.slice.step) == -1:
+                        return True
+                    if isinstance(e, ast.Call) and A.call_name(e) in ("list", "tuple") and e.args:
+                        return is_reversed(e.args[0])
+                    return False
+                pushes = []
+                for st in A.walk_local(fn):
+                    if isinstance(st, ast.Assign) and len(st.targets) == 1 and A.src(st.targets[0]) == stack:
+                        pushes.append((st, st.value))
+                    elif isinstance(st, ast.Call) and isinstance(st.func, ast.Attribute) and A.src(st.func.value) == stack \
+                            and st.func.attr in ("extend", "extendleft") and st.args:
+                        pushes.append((st, st.args[0]))
+                for st, e in pushes:
+                    if isinstance(e, (ast.List, ast.Tuple)) and len(e.elts) <= 1:
+                        continue
+                    rev = is_reversed(e)
+                    if isinstance(st, ast.Call) and st.func.attr == "extendleft":
+                        rev = not rev       # extendleft reverses by itself
+                    if fifo and isinstance(st, ast.Call) and st.func.attr == "extend":
+                        ctx.violation("C01-d", st, "flatten appends the elements of a nested sequence at the *end* of a first-in-first-out "
+                                      "worklist (`%s`): they are flattened after the elements that follow the nested sequence"
+                                      % A.short(st, 50), construct="flatten-worklist-order")
+                        continue
+                    ctx.check("C01-d", rev == lifo, st, "flatten pushes `%s` onto a worklist it empties with `%s`: the elements of that "
+                              "group come out in %s order, so Sequence(Sequence(a, b), c) is flattened to [b, a, c] -- Cache.alter_sequence, "
+                              "which cuts the flattened list at the cache, then hoists a Source that runs the wrong elements after it"
+                              % (A.short(e, 40), A.src(pops[0]), "reverse" if rev != lifo else "document"),
+                              detail="worklist push `%s` keeps document order" % A.short(e, 40), construct="flatten-worklist-order")
+                ctx.instances_floor("C01-d/worklist", len(pushes), 2, "pushes onto the worklist of flatten")
+        return
     if not ctx.require(len(loops) == 1, "C01-d", fn, "flatten: expected one loop"):
         return
     loop = loops[0]
@@ -436,6 +482,8 @@ def check(ctx):
 
 
 VARIANTS = [
+    M("flatten-stack-unreversed-push", "lena/core/meta.py", "    for el in seq:\n        if isinstance(el, lena_sequence.LenaSequence):\n            flattened.extend(flatten(el))", "    stack = list(seq)[::-1]\n    while stack:\n        el = stack.pop()\n        if isinstance(el, lena_sequence.LenaSequence):\n            stack.extend(el)", ["C01-d"]),
+    TW("flatten-stack-reversed-push", "lena/core/meta.py", "    for el in seq:\n        if isinstance(el, lena_sequence.LenaSequence):\n            flattened.extend(flatten(el))", "    stack = list(seq)[::-1]\n    while stack:\n        el = stack.pop()\n        if isinstance(el, lena_sequence.LenaSequence):\n            stack.extend(reversed(list(el)))"),
     M("filter-run-builtin-filter", "lena/flow/filter.py", "        return (val for val in flow if self._selector(val))", "        return filter(self._selector, flow)", ["C01-f"]),
     M("call-run-builtin-map", "lena/core/adapters.py", "        for val in flow:\n            yield self._el(val)\n", "        return map(self._el, flow)\n", ["C01-f"]),
     M("count-run-swallows-upstream-errors", "lena/flow/elements.py", "        except StopIteration:\n", "        except Exception:\n", ["C01-e"], nth=0),
